@@ -32,3 +32,4 @@ def check(ctx):
     ctx.floor("TABLES-mpo", 17)
     canon.gauge_moves(ctx)
     kernels.symbolic_operator_builder(ctx)
+    kernels.mps_apply_operator(ctx)
